@@ -39,11 +39,24 @@ class Ctx:
         self.seed = seed
         self.level = level
         self.crate = pid.lower()
+        # Development aid: VERIF_REPO=/tmp/some-worktree runs the check against a scratch copy
+        # of the repository (for trying mutants without touching /repo).  A private copy of the
+        # harness workspace with the path dependency rewritten is built under work/; evidence
+        # goes to the work directory.  Registered checks never set it.
+        self.repo = os.environ.get("VERIF_REPO", "/repo").rstrip("/") or "/repo"
+        self.alt = self.repo != "/repo"
+        self.harness_dir = HARNESS_DIR
+        if self.alt:
+            tagh = hashlib.sha1(self.repo.encode()).hexdigest()[:8]
+            self.harness_dir = os.path.join(VERIF, "work", "alt-harness-" + tagh)
         self.t0 = time.time()
-        self.work = os.path.join(VERIF, "work", "%s-%s" % (pid, tier))
+        self.work = os.path.join(VERIF, "work", "%s-%s%s" % (pid, tier,
+                                 "" if os.environ.get("VERIF_REPO", "/repo").rstrip("/") in ("", "/repo") else "-alt"))
         shutil.rmtree(self.work, ignore_errors=True)
         os.makedirs(self.work, exist_ok=True)
         self.replay_dir = os.path.join(VERIF, "replays", pid)
+        if os.environ.get("VERIF_REPO", "/repo").rstrip("/") not in ("", "/repo"):
+            self.replay_dir = os.path.join(self.work, "replays")
         if os.path.isdir(self.replay_dir):
             for fn in os.listdir(self.replay_dir):
                 if fn.startswith(tier + "-"):
@@ -74,16 +87,22 @@ class Ctx:
         t = time.time()
         env = dict(os.environ)
         env["CARGO_NET_OFFLINE"] = "true"
+        if self.alt:
+            os.makedirs(self.harness_dir, exist_ok=True)
+            subprocess.run(["rsync", "-a", "--delete", "--exclude", "target", HARNESS_DIR + "/", self.harness_dir + "/"], check=True)
+            ct = os.path.join(self.harness_dir, "Cargo.toml")
+            txt = open(ct).read().replace('path = "/repo"', 'path = "%s"' % self.repo)
+            open(ct, "w").write(txt)
         lock_src = "/repo/Cargo.lock"
-        lock_dst = os.path.join(HARNESS_DIR, "Cargo.lock")
+        lock_dst = os.path.join(self.harness_dir, "Cargo.lock")
         if not os.path.exists(lock_dst) and os.path.exists(lock_src):
             shutil.copy(lock_src, lock_dst)
-        p = subprocess.run(["cargo", "build", "--release", "--offline", "-p", self.crate], cwd=HARNESS_DIR,
+        p = subprocess.run(["cargo", "build", "--release", "--offline", "-p", self.crate], cwd=self.harness_dir,
                            env=env, stdout=subprocess.PIPE, stderr=subprocess.STDOUT, text=True)
         if p.returncode != 0:
             log(p.stdout[-6000:])
             raise ToolError("cargo build of the harness failed")
-        log("[build] harness rebuilt from /repo working tree in %.1fs" % (time.time() - t))
+        log("[build] harness crate %s rebuilt from %s working tree in %.1fs" % (self.crate, self.repo, time.time() - t))
 
     def harness(self, *args, timeout=3600, check=True):
         env = dict(os.environ)
@@ -91,7 +110,7 @@ class Ctx:
         env["VERIF_TIER"] = self.tier
         t = time.time()
         try:
-            p = subprocess.run([os.path.join(HARNESS_DIR, "target", "release", self.crate)] + [str(a) for a in args], env=env,
+            p = subprocess.run([os.path.join(self.harness_dir, "target", "release", self.crate)] + [str(a) for a in args], env=env,
                                stdout=subprocess.PIPE, stderr=subprocess.PIPE, text=True,
                                timeout=timeout)
         except subprocess.TimeoutExpired:
@@ -251,7 +270,10 @@ class Ctx:
             "violations": len(self.violations),
         }
         os.makedirs(os.path.join(VERIF, "evidence"), exist_ok=True)
-        with open(os.path.join(VERIF, "evidence", self.pid + ".json"), "w") as f:
+        evpath = os.path.join(VERIF, "evidence", self.pid + ".json")
+        if self.alt:
+            evpath = self.path("evidence-" + self.pid + ".json")
+        with open(evpath, "w") as f:
             json.dump(ev, f, indent=1)
         log("[evidence] evidence/%s.json written: evaluations=%d nontrivial=%d states=%d traces=%d violations=%d known=%d wall=%.0fs"
             % (self.pid, self.evaluations, distinct_nontrivial, self.states, self.traces, len(self.violations),
@@ -264,14 +286,16 @@ class Ctx:
 
 
 def load_known(pid):
-    p = os.path.join(VERIF, "known_findings.json")
-    if not os.path.exists(p):
-        return []
-    try:
-        d = json.load(open(p))
-    except Exception as e:  # noqa
-        raise ToolError("known_findings.json unreadable: %s" % e)
-    return [k for k in d.get("findings", []) if k.get("property") == pid]
+    out = []
+    for p in (os.path.join(VERIF, "known_findings.json"), os.path.join(VERIF, "known_findings", pid + ".json")):
+        if not os.path.exists(p):
+            continue
+        try:
+            d = json.load(open(p))
+        except Exception as e:  # noqa
+            raise ToolError("%s unreadable: %s" % (p, e))
+        out += [k for k in d.get("findings", []) if k.get("property") == pid]
+    return out
 
 
 def parse_prints(text):
